@@ -31,12 +31,18 @@ const ARBITER_MEMBER_STATUS_ONLINE = 5
 
 var ProposalRejectError = errors.New("Proposal Reject")
 
+// meta.pb only: flags in a member's role that record the commit this member
+// has accepted and that is still pending (ArbiterVoter.proposalHost / proposalFromHost)
+const ARBITER_META_ROLE_PROPOSAL_HOST = 0x100
+const ARBITER_META_ROLE_PROPOSAL_FROM_HOST = 0x200
+
 type ArbiterStore struct {
 	filename string
+	glock    *sync.Mutex
 }
 
 func NewArbiterStore() *ArbiterStore {
-	return &ArbiterStore{""}
+	return &ArbiterStore{"", &sync.Mutex{}}
 }
 
 func (self *ArbiterStore) Init(manager *ArbiterManager) error {
@@ -101,6 +107,12 @@ func (self *ArbiterStore) Load(manager *ArbiterManager) error {
 			member.isSelf = true
 			manager.ownMember = member
 		}
+		if rplm.Role&ARBITER_META_ROLE_PROPOSAL_HOST != 0 {
+			manager.voter.proposalHost = rplm.Host
+		}
+		if rplm.Role&ARBITER_META_ROLE_PROPOSAL_FROM_HOST != 0 {
+			manager.voter.proposalFromHost = rplm.Host
+		}
 		members = append(members, member)
 	}
 	if manager.ownMember == nil {
@@ -119,6 +131,8 @@ func (self *ArbiterStore) Load(manager *ArbiterManager) error {
 }
 
 func (self *ArbiterStore) Save(manager *ArbiterManager) error {
+	defer self.glock.Unlock()
+	self.glock.Lock()
 	if self.filename == "" {
 		err := self.Init(manager)
 		if err != nil {
@@ -142,6 +156,14 @@ func (self *ArbiterStore) Save(manager *ArbiterManager) error {
 	members := make([]*protobuf.ReplSetMember, 0)
 	for _, member := range manager.members {
 		rplm := &protobuf.ReplSetMember{Host: member.host, Weight: member.weight, Arbiter: member.arbiter, Role: uint32(member.role)}
+		if manager.voter.proposalHost != "" {
+			if member.host == manager.voter.proposalHost {
+				rplm.Role |= ARBITER_META_ROLE_PROPOSAL_HOST
+			}
+			if member.host == manager.voter.proposalFromHost {
+				rplm.Role |= ARBITER_META_ROLE_PROPOSAL_FROM_HOST
+			}
+		}
 		members = append(members, rplm)
 	}
 
@@ -876,6 +898,7 @@ func (self *ArbiterMember) DoSelfCommit(proposalId uint64, host string) (*protob
 	self.manager.voter.proposalHost = host
 	self.manager.voter.proposalFromHost = self.host
 	self.manager.voter.commitId = proposalId
+	_ = self.manager.store.Save(self.manager)
 	self.manager.slock.Log().Infof("Arbiter member self %s do commit succed", self.host)
 	return &protobuf.ArbiterCommitResponse{ErrMessage: ""}, nil
 }
@@ -2319,6 +2342,7 @@ func (self *ArbiterManager) commandHandleCommitCommand(serverProtocol *BinarySer
 	self.voter.proposalHost = request.Host
 	self.voter.proposalFromHost = voteFromMember.host
 	self.voter.commitId = request.ProposalId
+	_ = self.store.Save(self)
 	return protocol.NewCallResultCommand(command, 0, "", data), nil
 }
 
